@@ -6,7 +6,7 @@ from . import common as cm
 from .c02 import check_records, new_manifests
 
 CANDS = ["R/A/AA/AAA", "R/A/AA", "R/A", "R/AB", "R/B/AA", "R/B"]
-FILES = {"R/s.txt": 1, "R/A/a1.txt": 2, "R/A/AA/aa1.txt": 3, "R/A/AA/AAA/aaa1.txt": 4, "R/AB/ab1.txt": 5, "R/B/b1.txt": 6, "R/B/AA/baa1.txt": 7}
+FILES = {"R/s.txt": 1, "R/A/a1.txt": 2, "R/A/AA/aa1.txt": 3, "R/A/AA/AAA/aaa1.txt": 4, "R/AB/ab1.txt": 5, "R/B/b1.txt": 6, "R/B/AA/baa1.txt": 7, "R/A/AA/AAA.txt": 8, "R/A/AA/AAA_proxy/p.mov": 9, "R/A/AA_notes.txt": 10}
 
 
 def parent_of(hr, roots):
